@@ -488,3 +488,95 @@ func hasPanic(fn *ssa.Function) bool {
 	}
 	return false
 }
+
+// delegateOf: when fn is a thin wrapper — its body is one call to another hand-written module function, given only fn's own
+// parameters (or fields of its receiver), whose results it returns unchanged — the function it delegates to; otherwise fn.
+// Followed up to 3 levels ("x/aol.InitGenesis → Keeper.InitGenesis", "AppModule.EndBlock → burn.EndBlocker").
+func (p *Prog) delegateOf(fn *ssa.Function) *ssa.Function {
+	for depth := 0; depth < 3 && fn != nil && fn.Blocks != nil; depth++ {
+		if len(fn.Blocks) != 1 {
+			return fn
+		}
+		var call *ssa.Call
+		n := 0
+		for _, in := range fn.Blocks[0].Instrs {
+			switch x := in.(type) {
+			case *ssa.Call:
+				n++
+				call = x
+			case *ssa.Defer, *ssa.Go, *ssa.Store, *ssa.MapUpdate, *ssa.Send, *ssa.Panic:
+				if st, isSt := x.(*ssa.Store); isSt {
+					if al, _ := rootAlloc(st.Addr); al != nil {
+						continue // parameter spill
+					}
+				}
+				return fn
+			}
+		}
+		if n != 1 || call == nil {
+			return fn
+		}
+		g := call.Call.StaticCallee()
+		if g == nil || !InModule(g) || p.IsGenerated(g) || g.Blocks == nil {
+			return fn
+		}
+		g = resolveBound(g)
+		// arguments: parameters of fn, or loads/fields of them
+		for _, a := range call.Call.Args {
+			if !derivesFromParams(a, 0) {
+				return fn
+			}
+		}
+		// results: returned unchanged (or none)
+		ret, ok := fn.Blocks[0].Instrs[len(fn.Blocks[0].Instrs)-1].(*ssa.Return)
+		if !ok {
+			return fn
+		}
+		for _, rv := range ret.Results {
+			switch x := rv.(type) {
+			case *ssa.Call:
+				if x != call {
+					return fn
+				}
+			case *ssa.Extract:
+				if x.Tuple != ssa.Value(call) {
+					return fn
+				}
+			default:
+				return fn
+			}
+		}
+		fn = g
+	}
+	return fn
+}
+
+func derivesFromParams(v ssa.Value, depth int) bool {
+	if depth > 5 {
+		return false
+	}
+	switch x := v.(type) {
+	case *ssa.Parameter:
+		return true
+	case *ssa.UnOp:
+		return derivesFromParams(x.X, depth+1)
+	case *ssa.FieldAddr:
+		return derivesFromParams(x.X, depth+1)
+	case *ssa.Field:
+		return derivesFromParams(x.X, depth+1)
+	case *ssa.Alloc:
+		// a spilled parameter
+		if refs := x.Referrers(); refs != nil {
+			for _, rf := range *refs {
+				if st, ok := rf.(*ssa.Store); ok && st.Addr == ssa.Value(x) {
+					return derivesFromParams(st.Val, depth+1)
+				}
+			}
+		}
+	case *ssa.MakeInterface:
+		return derivesFromParams(x.X, depth+1)
+	case *ssa.ChangeInterface:
+		return derivesFromParams(x.X, depth+1)
+	}
+	return false
+}
